@@ -329,7 +329,9 @@ func (s *SpecValidator) validateCircularAncestry(nm string, sch spec.Schema, kno
 		schn = sch.Ref.String()
 	}
 
-	if schn != nm && schn != "" {
+	if sch.Ref.String() != "" {
+		// a reference was followed: schn names an ancestor, even when it is the name this call was given (a definition
+		// reached again through inline allOf members, which carry the name of the schema they are part of)
 		if _, ok := knowns[schn]; ok {
 			ancs = append(ancs, schn)
 		}
